@@ -71,6 +71,17 @@ int main(void)
 			for (long i = 0; i < n; i++) stepq(dir);
 			dec(last_fed);
 		}
+		else if (drv_is(&c, "Spin")) {
+			/* a knob spun fast: n quarter steps in one direction, every sample a new valid state (no repeat, no bounce), and
+			 * then a sample that differs in both bits; a few more steps, another such sample, and the other way round */
+			long n = drv_arg(&c, 0); int dir = drv_arg(&c, 1);
+			for (int leg = 0; leg < 3; leg++) {
+				for (long i = 0; i < (leg ? 9 + leg : n); i++) step(leg == 2 ? -dir : dir);
+				dec(last_fed ^ 3);
+				for (int k = 0; k < 4; k++) if (gray[k] == last_fed) phase = k;
+			}
+			for (int i = 0; i < 6; i++) step(dir);
+		}
 		else if (drv_is(&c, "Hold")) {
 			/* the same state polled n times in a row (a knob at rest, or held part-way through a click) */
 			int st = drv_arg(&c, 0); long n = drv_arg(&c, 1);
